@@ -289,7 +289,8 @@ func (rn *runner) scenario(sc scenario, origin string) {
 		calls = append(calls, o)
 		callTerms = append(callTerms, o.coq())
 	}
-	// tags derived from the observations (never from the model)
+	// tags derived from the observations and the carrier (never from the model); "finding" is
+	// computed exactly as Obs.C07.finding_of
 	kind := "body"
 	if cr.Method == "HEAD" {
 		kind = "HEAD"
@@ -306,6 +307,48 @@ func (rn *runner) scenario(sc scenario, origin string) {
 		after := calls[0].WStatus == http.StatusRequestedRangeNotSatisfiable || calls[0].WCode == "RANGE_INVALID"
 		ambig = after != v0.Is[len(v0.Is)-1]
 	}
+	oversize := false
+	for _, o := range calls {
+		if o.Bad != "" {
+			continue
+		}
+		for _, n := range o.Lens {
+			if n > 8192 {
+				oversize = true
+			}
+		}
+	}
+	finding := func(f string) string {
+		head := kind == "HEAD"
+		switch f {
+		case "Is":
+			switch {
+			case head:
+				return "head-identity"
+			case oversize:
+				return "oversize-body"
+			case ambig:
+				return "is-416-status"
+			}
+		case "Detail":
+			switch {
+			case head:
+				return "head-detail"
+			case oversize:
+				return "oversize-body"
+			}
+		case "Message":
+			switch {
+			case head:
+				return "none"
+			case oversize:
+				return "oversize-body"
+			case cr.OpWrap:
+				return "upload-message-accumulates"
+			}
+		}
+		return "none"
+	}
 	for _, f := range fields {
 		if f == "Head" && kind != "HEAD" {
 			continue
@@ -321,6 +364,8 @@ func (rn *runner) scenario(sc scenario, origin string) {
 			"opwrap":       cr.OpWrap,
 			"msg1":         msg1,
 			"ambig416":     ambig,
+			"oversize":     oversize,
+			"finding":      finding(f),
 		}
 		desc := map[string]any{"scenario": sc, "field": f, "original": v0, "calls": calls, "origin": origin}
 		if rn.out.Add(hx.Case{Coq: coq, Desc: desc, Tags: tags}) {
@@ -332,6 +377,8 @@ func (rn *runner) scenario(sc scenario, origin string) {
 				rn.out.Count(fmt.Sprintf("hops:%d", sc.Hops))
 				rn.out.Count("origin:" + origin)
 				rn.out.Count("msg1:" + msg1)
+				rn.out.Count(fmt.Sprintf("oversize:%v", oversize))
+				rn.out.Count(fmt.Sprintf("ambig416:%v", ambig))
 			}
 		}
 	}
@@ -340,7 +387,7 @@ func (rn *runner) scenario(sc scenario, origin string) {
 func main() {
 	cfg := hx.ParseFlags()
 	out := hx.NewOut(cfg, "Obs.C07")
-	out.ShardMax = 400
+	out.ShardMax = 260
 	c := newChain()
 	defer c.close()
 	rn := &runner{c: c, out: out}
